@@ -40,6 +40,7 @@ impl Rng {
 
 static CALL_START_MS: AtomicU64 = AtomicU64::new(0);
 static GUARD_DEPTH: AtomicU64 = AtomicU64::new(0);
+static CALL_SEQ: AtomicU64 = AtomicU64::new(1);
 
 /// Panics inside a guarded call are data; panics of the harness itself must be loud.
 pub fn install_panic_hook() {
@@ -69,26 +70,59 @@ fn now_ms() -> u64 {
         .unwrap_or(0)
 }
 
-/// Starts a watchdog thread: if one guarded call runs longer than `limit_s` the process exits
-/// with status 3 (the orchestrator reports the in-flight session as a hang).
+/// CPU time (user + system) this process has used, in milliseconds (Linux: /proc/self/stat,
+/// 100 clock ticks per second).
+fn cpu_ms() -> u64 {
+    let stat = std::fs::read_to_string("/proc/self/stat").unwrap_or_default();
+    // the fields after the parenthesised command name
+    let rest = stat.rsplit(')').next().unwrap_or("");
+    let f: Vec<&str> = rest.split_whitespace().collect();
+    // rest starts at field 3 (state): utime is field 14, stime field 15
+    let ticks = |i: usize| f.get(i).and_then(|x| x.parse::<u64>().ok()).unwrap_or(0);
+    (ticks(11) + ticks(12)) * 10
+}
+
+/// Starts a watchdog thread: if one guarded call has burnt more than `limit_s` seconds of CPU
+/// time (a loop that does not end; measured in CPU time so that a loaded machine does not
+/// matter), or has not returned after 30 times that in wall-clock time, the process exits with
+/// status 3 (the orchestrator reports the in-flight session as a hang).
 pub fn start_watchdog(limit_s: u64) {
-    std::thread::spawn(move || loop {
-        std::thread::sleep(std::time::Duration::from_millis(250));
-        let started = CALL_START_MS.load(Ordering::SeqCst);
-        if started != 0 && now_ms().saturating_sub(started) > limit_s * 1000 {
-            eprintln!("WATCHDOG: a call exceeded {} s", limit_s);
-            let desc = INFLIGHT.lock().map(|g| g.clone()).unwrap_or_default();
-            let path = HANG_FILE.lock().map(|g| g.clone()).unwrap_or_default();
-            if !path.is_empty() {
-                let _ = std::fs::write(&path, &desc);
+    std::thread::spawn(move || {
+        let mut seen_seq = 0u64;
+        let mut cpu0 = 0u64;
+        let mut wall0 = 0u64;
+        loop {
+            std::thread::sleep(std::time::Duration::from_millis(250));
+            let seq = CALL_SEQ.load(Ordering::SeqCst);
+            let started = CALL_START_MS.load(Ordering::SeqCst);
+            if started == 0 {
+                seen_seq = 0;
+                continue;
             }
-            std::process::exit(3);
+            if seq != seen_seq {
+                seen_seq = seq;
+                cpu0 = cpu_ms();
+                wall0 = now_ms();
+                continue;
+            }
+            let cpu = cpu_ms().saturating_sub(cpu0);
+            let wall = now_ms().saturating_sub(wall0);
+            if cpu > limit_s * 1000 || wall > 30 * limit_s * 1000 {
+                eprintln!("WATCHDOG: a call used {} ms of CPU time / {} ms of wall-clock time", cpu, wall);
+                let desc = INFLIGHT.lock().map(|g| g.clone()).unwrap_or_default();
+                let path = HANG_FILE.lock().map(|g| g.clone()).unwrap_or_default();
+                if !path.is_empty() {
+                    let _ = std::fs::write(&path, &desc);
+                }
+                std::process::exit(3);
+            }
         }
     });
 }
 
 /// Runs `f`, turning a panic into `Err(message)`.
 pub fn guard<T>(f: impl FnOnce() -> T) -> Result<T, String> {
+    CALL_SEQ.fetch_add(1, Ordering::SeqCst);
     CALL_START_MS.store(now_ms().max(1), Ordering::SeqCst);
     let depth = GUARD_DEPTH.fetch_add(1, Ordering::SeqCst);
     let r = catch_unwind(AssertUnwindSafe(f));
